@@ -3,7 +3,7 @@
    extracted datatypes.  Run from /verif/extract:
      coqc -Q ../coq K Extract.v *)
 From Coq Require Import Extraction ExtrOcamlBasic ExtrOcamlString.
-From K Require Import Str SetM Linq Sieve Dec Trace Fs World Progs Elf Handler Bitmap Main ConfigInst MountParse.
+From K Require Import Str SetM Linq Sieve Dec Trace Fs World Progs Elf Handler Bitmap Main ConfigInst MountParse ElfSpec.
 Extraction Blacklist String List Char Bool.
 Set Extraction Optimize.
 Extraction "model.ml"
@@ -16,7 +16,7 @@ Extraction "model.ml"
   fs_append fs_symlink parents_of run no_faults
   load_handler free_handler handle_open_exec handle_close_write handle_timeout
   sync_file read_counter write_counter note get_file_extension create_store_path current_path increment
-  get_elf_interpreter_raw
+  get_elf_interpreter_raw mk_elf elf_interp_spec
   bm_create bm_set bm_unset bm_get attr_run
   parse_params common_len main
   parse_mounts parse_mounts_gen render_mounts
